@@ -8,12 +8,12 @@ import (
 
 // Spec is one (pool implementation, configuration) model.
 type Spec struct {
-	Name   string // part name prefix (implementation)
-	Config string
-	New    func() explore.System
-	Depth  int
+	Name    string // part name prefix (implementation)
+	Config  string
+	New     func() explore.System
+	Depth   int
 	NoDedup int
-	Bubble bool // must run inside a synctest bubble (goroutines/timers)
+	Bubble  bool // must run inside a synctest bubble (goroutines/timers)
 }
 
 func (s Spec) Part() string { return s.Name + "[" + s.Config + "]" }
